@@ -124,6 +124,12 @@ def apply_create(net, op):
         tab = TABLE_OF.get(et, et)
         if tab in net:
             ix = {"index": int(net[tab].index.max() + 1 + op["gap"]) if len(net[tab]) else int(op["gap"])}
+            if op["gap"] % 3 == 0 and len(net[tab]):
+                # an unused index BELOW the current maximum, if there is one: the table index becomes unsorted
+                used = set(int(x) for x in net[tab].index)
+                free = [x for x in range(int(max(used))) if x not in used]
+                if free:
+                    ix = {"index": free[op["gap"] % len(free)]}
     return _apply_create(net, op, et, bus, ix)
 
 
